@@ -149,7 +149,13 @@ def do_insert(doc, o: dict) -> dict:
     # no name of its own or another one; "via" is chosen by the caller of do_insert (recorded in the event)
     via = o.get("via", "own")
     try:
-        if via == "own" or not o["name"] or o["family"] == "font-face":
+        if via == "refamily" and o["name"] and o["family"] in ("paragraph", "text", "table-cell", "table"):
+            # a style object made for another family, looked at, then given its family: what is inserted is the object as it now is
+            st = make_style("text" if o["family"] != "text" else "paragraph", o["name"])
+            _ = (st.family, repr(st), str(st.family))
+            st.family = o["family"]
+            ret = doc.insert_style(st, automatic=o["automatic"], default=o["default"])
+        elif via == "own" or not o["name"] or o["family"] == "font-face":
             st = make_style(o["family"], o["name"])
             ret = doc.insert_style(st, automatic=o["automatic"], default=o["default"])
         else:
@@ -217,3 +223,39 @@ def harvest_repo_style_tests(paths=("tests/style", "tests/test_document.py", "te
         return r.returncode, events, r.stdout[-200:]
     finally:
         Path(path).unlink(missing_ok=True)
+
+
+DATA_NS = "{urn:oasis:names:tc:opendocument:xmlns:datastyle:1.0}"
+STYLE_NAME = "{urn:oasis:names:tc:opendocument:xmlns:style:1.0}name"
+DATA_FAMILIES = {"number-style": "number", "currency-style": "currency", "percentage-style": "percentage", "time-style": "time", "boolean-style": "boolean"}
+
+
+def data_styles(doc) -> list:
+    """(part, container, tag, name) of the number / currency / percentage / time / boolean styles, read with lxml from the
+    serialised parts"""
+    out = []
+    for part in ("styles.xml", "content.xml"):
+        root = etree.fromstring(doc.get_part(part).serialize())
+        for e in root.iter():
+            if isinstance(e.tag, str) and e.tag.startswith(DATA_NS) and e.tag[len(DATA_NS):] in DATA_FAMILIES and e.get(STYLE_NAME):
+                out.append((part, etree.QName(e.getparent()).localname, e.tag[len(DATA_NS):], e.get(STYLE_NAME)))
+    return out
+
+
+def merged_data_styles_ok(doc, other) -> list:
+    """after doc.merge_styles_from(other): every data style of `other` is found again in `doc` under its family and name,
+    and sits once in the container it was merged into; returns the list of what is wrong"""
+    wrong = []
+    mine = data_styles(doc)
+    for part, cont, tag, name in data_styles(other):
+        n = sum(1 for x in mine if x == (part, cont, tag, name))
+        if n != 1:
+            wrong.append(f"{tag} {name}: {n} in {part} {cont}")
+        try:
+            found = doc.get_style(DATA_FAMILIES[tag], name)
+        except Exception as ex:  # noqa: BLE001
+            found = None
+            wrong.append(f"{tag} {name}: lookup raised {type(ex).__name__}")
+        if found is None:
+            wrong.append(f"{tag} {name}: not found by get_style({DATA_FAMILIES[tag]!r}, name)")
+    return wrong
